@@ -52,15 +52,21 @@ def tree_size(t):
     return 1 + sum(tree_size(c) for c in t['ch'])
 
 
+def subtrees(t):
+    yield t
+    for c in t['ch']:
+        yield from subtrees(c)
+
+
 def tree_key(t):
     return json.dumps(t, sort_keys=True)
 
 
-def model_phase(run, bounds, invariants, want_pairs=False, max_single=None):
+def model_phase(run, bounds, invariants, want_pairs=False, max_single=None, faults=()):
     """Run TLC over each (alphabet, N, stack, arity) with the property's laws as invariants; dump and collect trees."""
     singles, pairs = {}, []
     for (alpha, n, st, ar) in bounds:
-        mod, cfg = treecfg.cfg(alpha, n, st, ar, invariants)
+        mod, cfg = treecfg.cfg(alpha, n, st, ar, invariants, faults=faults if alpha == 'F' else ())
         r = run.tlc(f'gen{alpha}{n}', mod, cfg, dump=True, timeout=3000)
         if r.violated:
             tr = tla.error_trace(r.out)
